@@ -10,7 +10,7 @@ use std::ops::{Add, Mul, Range};
 verus! {
 //@include ../shim/order.rs
 //@include ../shim/lane.rs
-//@include ../shim/slices_min.rs
+//@include ../shim/slices.rs
 //@include ../shim/bins_types.rs
 //@include ../shim/num.rs
 //@include parts/edges_from.part.rs
@@ -21,9 +21,44 @@ impl<A: Ord> Bins<A> {
 pub open spec fn eq_pre<T: Ord + Clone + NumOps + FromPrimitive>(s: EquiSpaced<T>, m: usize) -> bool {
     &&& lawful_ord::<T>() && lawful_clone::<T>() && num_ok::<T>()
     &&& m < usize::MAX
-    &&& forall|i: usize| i <= m ==> (#[trigger] T::from_usize_spec(i)).is_some()
+    &&& forall|i: usize| i <= m ==> #[trigger] edge_defined(s.min, s.bin_width, i)
     // the edges eventually pass the maximum (for integer types: whenever max + width is representable)
     &&& lt(s.max, edge_at(s.min, s.bin_width, m))
+}
+
+// A-NUM-MONO (a hypothesis of the conditional clauses only): the concrete arithmetic separates consecutive
+// edges (min + (i+1)*w > min + i*w) and min + 0*w == min.  True for integer types as long as nothing overflows,
+// and for floats as long as the width is not absorbed by the magnitude of the edges - the caveat of C12.
+pub open spec fn arith_mono<T: Ord + Clone + NumOps + FromPrimitive>(s: EquiSpaced<T>, b: usize) -> bool {
+    &&& edge_at(s.min, s.bin_width, 0) == s.min
+    &&& forall|i: usize| i < b ==> lt(#[trigger] edge_at(s.min, s.bin_width, i), edge_at(s.min, s.bin_width, (i + 1) as usize))
+}
+pub open spec fn edges_upto<T: NumOps + FromPrimitive>(min: T, w: T, n: usize) -> Seq<T> { Seq::new((n + 1) as nat, |i: int| edge_at(min, w, i as usize)) }
+
+pub proof fn lemma_edges_strict<T: Ord + Clone + NumOps + FromPrimitive>(s: EquiSpaced<T>, n: usize, bb: usize)
+    requires lawful_ord::<T>(), arith_mono(s, bb), n <= bb, n < usize::MAX
+    ensures strictly_sorted(edges_upto(s.min, s.bin_width, n))
+{
+    reveal(strictly_sorted);
+    let e = edges_upto(s.min, s.bin_width, n);
+    assert forall|a: int, b: int| 0 <= a < b < e.len() implies lt(e[a], e[b]) by { lemma_edge_lt(s, a as usize, b as usize, bb); }
+}
+pub proof fn lemma_edge_lt<T: Ord + Clone + NumOps + FromPrimitive>(s: EquiSpaced<T>, a: usize, b: usize, bb: usize)
+    requires lawful_ord::<T>(), arith_mono(s, bb), a < b <= bb
+    ensures lt(edge_at(s.min, s.bin_width, a), edge_at(s.min, s.bin_width, b))
+    decreases b - a
+{
+    reveal(lawful_ord);
+    if a + 1 < b {
+        lemma_edge_lt(s, a, (b - 1) as usize, bb);
+        assert(lt(edge_at(s.min, s.bin_width, (b - 1) as usize), edge_at(s.min, s.bin_width, b)));
+        let (x, y, z) = (edge_at(s.min, s.bin_width, a), edge_at(s.min, s.bin_width, (b - 1) as usize), edge_at(s.min, s.bin_width, b));
+        assert(le(x, y) && le(y, z));
+        assert(le(x, z));
+        if !lt(x, z) { assert(le(z, x)); assert(le(z, y)); }
+    } else {
+        assert(b == a + 1);
+    }
 }
 
 impl<T> EquiSpaced<T>
@@ -60,7 +95,10 @@ where
             invariant
                 eq_pre(*self, m), ord_laws::<T>(),
                 n_bins <= m, // [C12]
+                edge_defined(self.min, self.bin_width, n_bins),
                 forall|i: usize| i < n_bins ==> le(#[trigger] edge_at(self.min, self.bin_width, i), self.max), // [C12]
+            ensures
+                lt(self.max, edge_at(self.min, self.bin_width, n_bins)), // [C12] (stated as a loop postcondition so that `loop { if c {..} else { break } }` forms verify too)
             decreases m - n_bins
 //@end
 
@@ -74,12 +112,18 @@ where
             r.edges.edges@.contains(edge_at(self.min, self.bin_width, 0)), // [C12] starts at min + 0*width
             // coverage: every value between the first computed edge and the data maximum falls in a bin
             forall|v: T| le(edge_at(self.min, self.bin_width, 0), v) && le(v, self.max) ==> exists|i: int| #[trigger] in_bin(r.edges.edges@, i, v), // [C12]
+            // under A-NUM-MONO: the bins start exactly at the minimum, the edges are exactly min + i*width for i = 0..=n with n the
+            // advertised number of bins (nothing is merged), and they end strictly above the maximum by at most one bin
+            forall|bb: usize| #[trigger] eq_pre(*self, bb) && arith_mono(*self, bb) ==> exists|n: usize| n <= bb && #[trigger] edges_upto(self.min, self.bin_width, n) == r.edges.edges@
+                && r.edges.edges@[0] == self.min && lt(self.max, edge_at(self.min, self.bin_width, n))
+                && forall|i: usize| i < n ==> le(#[trigger] edge_at(self.min, self.bin_width, i), self.max), // [C12]
 //@at entry
         let ghost m = choose|m: usize| eq_pre(*self, m);
 //@loop 0
             invariant
                 eq_pre(*self, m), n_bins < usize::MAX, n_bins <= m || true,
-                forall|k: usize| k <= n_bins ==> (#[trigger] T::from_usize_spec(k)).is_some(),
+                forall|k: usize| k <= n_bins ==> #[trigger] edge_defined(self.min, self.bin_width, k),
+                i <= n_bins ==> edge_defined(self.min, self.bin_width, i),
                 edges@.len() == i, // [C12]
                 forall|k: int| 0 <= k < edges@.len() ==> #[trigger] edges@[k] == edge_at(self.min, self.bin_width, k as usize), // [C12]
 //@at after_loop 0
@@ -92,8 +136,18 @@ where
             assert(pre.contains(pre[n_bins as int]));
         }
         let ghost pre = edges@;
+        proof {
+            assert(pre =~= edges_upto(self.min, self.bin_width, n_bins));
+            assert forall|bb: usize| #[trigger] eq_pre(*self, bb) && arith_mono(*self, bb) implies strictly_sorted(pre) by { lemma_edges_strict(*self, n_bins, bb); }
+        }
 //@at after_call new 0
         proof {
+            assert forall|bb: usize| #[trigger] eq_pre(*self, bb) && arith_mono(*self, bb) implies
+                (n_bins <= bb && edges_upto(self.min, self.bin_width, n_bins) == __r.edges.edges@ && __r.edges.edges@[0] == self.min) by {
+                assert(strictly_sorted(pre));
+                assert(__r.edges.edges@ == pre);
+                assert(pre[0] == edge_at(self.min, self.bin_width, 0));
+            }
             let e = __r.edges.edges@;
             let lo = edge_at(self.min, self.bin_width, 0);
             let hi = edge_at(self.min, self.bin_width, n_bins);
@@ -111,6 +165,29 @@ where
             }
         }
 //@end
+}
+
+// ---- non-vacuity of the hypotheses: they hold for a concrete i64 builder (proved) ----------------------
+impl NumOps for i64 {}
+impl FromPrimitive for i64 {
+    open spec fn from_usize_spec(n: usize) -> Option<i64> { if n <= 0x7fff_ffff { Some(n as i64) } else { None } }
+    fn from_usize(n: usize) -> (r: Option<i64>) { if n <= 0x7fff_ffff { Some(n as i64) } else { None } }
+}
+pub proof fn lemma_hypotheses_satisfiable()
+    ensures ({
+        let s = EquiSpaced::<i64> { bin_width: 2i64, min: (-3i64), max: 4i64 };
+        eq_pre(s, 4) && arith_mono(s, 4) && eq_is_ord_equal::<i64>()
+    })
+{
+    reveal(lawful_ord);
+    let s = EquiSpaced::<i64> { bin_width: 2i64, min: (-3i64), max: 4i64 };
+    assert(edge_at(s.min, s.bin_width, 0) == -3i64);
+    assert(edge_at(s.min, s.bin_width, 1) == -1i64);
+    assert(edge_at(s.min, s.bin_width, 2) == 1i64);
+    assert(edge_at(s.min, s.bin_width, 3) == 3i64);
+    assert(edge_at(s.min, s.bin_width, 4) == 5i64);
+    assert(lawful_clone::<i64>());
+    assert(num_ok::<i64>());
 }
 
 } // verus!
